@@ -53,7 +53,32 @@ def worker(spec):
     try:
         return _worker(spec)
     except common.BuildError as e:
-        return {'counts': {}, 'viol': [], 'samples': [], 'distinct': [], 'incon': ['build: ' + e.diag[:1500]], 'buildfail': spec}
+        # 1. private names behind the friend hook may have changed: fall back to public-API observations only
+        if not spec.get('no_access'):
+            try:
+                s2 = dict(spec); s2['no_access'] = True
+                out = _worker(s2)
+                out['counts']['hook_unavailable_batches'] = out['counts'].get('hook_unavailable_batches', 0) + 1
+                return out
+            except common.BuildError as e2:
+                e = e2
+            except Exception:
+                pass
+        # 2. find the grammar whose documented usage no longer compiles
+        gl = spec['grammars']
+        if len(gl) > 1:
+            outs = [worker(dict(spec, grammars=[gj], explicit_inputs=[spec['explicit_inputs'][i]] if 'explicit_inputs' in spec else None) if 'explicit_inputs' in spec else dict(spec, grammars=[gj])) for i, gj in enumerate(gl)]
+            m = {'counts': collections.Counter(), 'viol': [], 'samples': [], 'distinct': [], 'incon': []}
+            for o in outs:
+                for k, v in o['counts'].items(): m['counts'][k] += v
+                for k in ('viol', 'samples', 'distinct', 'incon'): m[k] += o[k]
+            return m
+        g = Grammar.from_json(gl[0])
+        inlib = 'ctpg.hpp' in e.diag
+        if inlib:
+            return {'counts': {'evaluations': 1}, 'viol': [(['input:' + g.key() + ':compile'], 'grammar %s (value types %s, typed-term values %s): a program using only the documented API no longer compiles: %s' % (
+                g.text(), g.vtypes, g.tvtype, e.diag[:500]), {'grammar': g.to_json(), 'diag': e.diag[:2000]})], 'samples': [], 'distinct': [], 'incon': []}
+        return {'counts': {}, 'viol': [], 'samples': [], 'distinct': [], 'incon': ['build: ' + e.diag[:1500]]}
     except Exception as e:
         return {'counts': {}, 'viol': [], 'samples': [], 'distinct': [], 'incon': ['worker exception: ' + traceback.format_exc()[-1500:]]}
 
@@ -62,7 +87,7 @@ def _worker(spec):
     gs, tbs, inputs = prepare(spec)
     modes = cfg['modes']
     src = eg.emit_tu(gs, runtime_ctor=set(spec.get('runtime_ctor', ())))
-    exe = common.build(src, spec.get('flavour', 'clang'), extra=eg.mode_defines(modes))
+    exe = common.build(src, spec.get('flavour', 'clang'), extra=eg.mode_defines(modes) + (['-DVF_NO_ACCESS'] if spec.get('no_access') else []))
     jobs = []
     for gi in range(len(gs)): jobs.append(('D', gi))
     rc0, recs0, dumps, meta0, err0 = eg.run_jobs(exe, jobs, timeout=300)
